@@ -136,4 +136,39 @@ tablet-switch bytes `tb`, read in some interleaved order by a fresh loop? -/
 def wireAccepts (L : Layout) (kb tb out : List Nat) : Bool :=
   acceptsAny L State.init false (decodeStream kb) (decodeTabletStream tb) out
 
+/-! ### With the repeat timer
+
+`wireOfTLog` extends `wireOfLog` by TICKS: the moments at which the loop's `poll` timed out with a
+repeat armed and the chord was written.  The model keeps the repeat keys armed by the last step result
+(`Repeating` arms, `Disabled` disarms, `NoChange` keeps; a tablet-switch event disarms — exactly
+`afterStep` and the tablet arm of `advance` in `Model/Loop.lean`); a tick writes `chordOf` of the
+mapper state and the armed keys; a tick with nothing armed is impossible (`none`).  WHEN ticks happen
+is the clock's business (C11: `C11_deadline`, `C11_first_wait`); suite e2e checks the arrival times
+against the real clock and the bytes against this function. -/
+
+/-- the repeat keys armed after a step result -/
+def armAfter (cur : Option (List Key)) : RRepeat → Option (List Key)
+  | RRepeat.disabled => none
+  | RRepeat.noChange => cur
+  | RRepeat.repeating keys _ _ => some keys
+
+/-- an item read, or a timer tick -/
+inductive TItem where
+  | item (i : Item)
+  | tick
+deriving DecidableEq, Repr, Inhabited
+
+def wireOfTLog (L : Layout) : State → Option (List Key) → Bool → List TItem → Option (List Nat)
+  | _, _, _, [] => some []
+  | s, rep, b, TItem.item (Item.kbd ev) :: is =>
+    if b then wireOfTLog L s rep b is
+    else (wireOfTLog L (step L s ev).1 (armAfter rep (step L s ev).2.rep) b is).map
+           (fun rest => wireBatch (step L s ev).2.events ++ rest)
+  | s, _, _, TItem.item (Item.tab tev) :: is =>
+    (wireOfTLog L (releaseAll L s).1 none tev.mode is).map (fun rest => wireBatch (releaseAll L s).2 ++ rest)
+  | s, rep, b, TItem.tick :: is =>
+    match rep with
+    | none => none
+    | some keys => (wireOfTLog L s rep b is).map (fun rest => wireBatch (chordOf s keys) ++ rest)
+
 end TmVerif
